@@ -14,7 +14,7 @@
    regexp/syntax run by the harness on each specifier part: its top-level alternatives); the
    theorems hold for every oracle.  [lang]/[full_lang]/[search_lang] are the semantics of the
    expressions (Lib/RegexM.v), [search] is regexp.MatchString. *)
-From Verif Require Import Lib.Base Lib.RegexM Model.C13_Accounts Proofs.C13 Proofs.C13_Store Proofs.C13_Match Proofs.C13_Partial.
+From Verif Require Import Lib.Base Lib.RegexM Model.C13_Accounts Proofs.C13 Proofs.C13_Store Proofs.C13_Match Proofs.C13_Partial Proofs.C13_Default.
 From Verif Require Import Check.C13 Proofs.C13_Check Model.C13_During Proofs.C13_During.
 From Coq Require Import String.
 Open Scope N_scope.
@@ -394,6 +394,78 @@ Qed.
 Print Assumptions C13_enclosed_whenever_bar.
 
 (* ------------------------------------------------------------------------------------------- *)
+(* The order of the normalisation steps.  The managers substitute `.*` ("no account specifier means
+   all accounts in the wallet") for an ABSENT or TEXTUALLY EMPTY account part first and remove one
+   `^` and one `$` of each part afterwards.  Hence, for every specifier the dirk manager accepts:
+   the account part handed to the pattern is `.*` exactly when the written one is absent, empty, or
+   `.*` itself between anchors; and it is the empty expression exactly when the written one
+   consists of anchors alone (`^`, `$`, `^$`) -- such a part is NOT replaced by `.*`. *)
+Theorem C13_default_only_without_account_part :
+  forall (path p0 p1 : string),
+    dirk_parts path = Some (p0, p1) ->
+    (p1 = ".*"%string <->
+     exists w rest, split_slash path = w :: rest /\
+       match rest with [] => True | x :: _ => x = ""%string \/ strip_anchors x = ".*"%string end)
+    /\ (p1 = ""%string <->
+        exists w x rest, split_slash path = w :: x :: rest /\
+          (x = "^"%string \/ x = "$"%string \/ x = "^$"%string)).
+Proof.
+  intros path p0 p1 H. split.
+  - exact (dirk_account_part_default_iff path p0 p1 H).
+  - exact (dirk_account_part_empty_iff path p0 p1 H).
+Qed.
+Print Assumptions C13_default_only_without_account_part.
+
+(* A specifier  wallet / anchors-only  names the empty account name and nothing else, in both
+   managers, for every wallet name, every account name and every oracle that reads the wallet's
+   name as itself and the empty text as the empty expression: no account the signer or the store
+   offers under a non-empty name is admitted through it. *)
+Theorem C13_anchor_only_account_part_admits_only_the_empty_name :
+  forall parse (path w x : string) (rest : list string) (a : account),
+    split_slash path = w :: x :: rest -> w <> ""%string ->
+    x = "^"%string \/ x = "$"%string \/ x = "^$"%string ->
+    has_bar (a_wallet a) = false ->
+    parse (a_wallet a) = Some [lit (a_wallet a)] -> parse ""%string = Some [Eps] ->
+    (strip_anchors w = a_wallet a ->
+     (dirk_admits (dirk_patterns parse [path]) a = true <-> a_name a = ""%string))
+    /\ (w = a_wallet a ->
+        (wallet_admits (wallet_patterns parse [path]) a = true <-> a_name a = ""%string /\ a_locked a = false)).
+Proof.
+  intros parse path w x rest a Hs Hw Hx Hbar Hpw Hpe. split.
+  - intro Hwa. exact (dirk_anchor_only_account_part parse path w x rest a Hs Hw Hx Hwa Hbar Hpw Hpe).
+  - intro Hwa. subst w. exact (wallet_anchor_only_account_part parse path x rest a Hs Hw Hx Hbar Hpw Hpe).
+Qed.
+Print Assumptions C13_anchor_only_account_part_admits_only_the_empty_name.
+
+(* The other order -- anchors removed first, `.*` substituted for whatever is empty then
+   ([dirk_parts_default_after_strip], seeded change C13-8) -- is the code on every specifier whose
+   account part is not anchors alone (so no test over wallets, plain names and expressions with or
+   without anchors tells them apart) ... *)
+Theorem C13_default_after_strip_invisible_otherwise :
+  forall path : string,
+    (forall w x rest, split_slash path = w :: x :: rest ->
+       x <> "^"%string /\ x <> "$"%string /\ x <> "^$"%string) ->
+    dirk_parts_default_after_strip path = dirk_parts path.
+Proof. exact default_after_strip_invisible. Qed.
+Print Assumptions C13_default_after_strip_invisible_otherwise.
+
+(* ... and on wallet1/^$, wallet1/$, wallet1/^ it hands `.*` to the pattern, whose text
+   ^wallet1/.*$ is the short circuit's: account1 is admitted, where the code's ^wallet1/$ admits the
+   empty name only. *)
+Theorem C13_default_after_strip_refuted :
+  forall x : string, x = "^$"%string \/ x = "$"%string \/ x = "^"%string ->
+    dirk_parts ("wallet1/" ++ x)%string = Some ("wallet1", "")%string /\
+    dirk_parts_default_after_strip ("wallet1/" ++ x)%string = Some ("wallet1", ".*")%string /\
+    option_map p_text (dirk_pattern oracle_wallet1 ("wallet1/" ++ x)%string) = Some "^wallet1/$"%string /\
+    option_map p_text (dirk_pattern_default_after_strip oracle_wallet1 ("wallet1/" ++ x)%string) = Some "^wallet1/.*$"%string /\
+    dirk_admits (filter_map (dirk_pattern_default_after_strip oracle_wallet1) [("wallet1/" ++ x)%string])
+                (acct_wallet1 "account1"%string 1) = true /\
+    dirk_admits (dirk_patterns oracle_wallet1 [("wallet1/" ++ x)%string]) (acct_wallet1 "account1"%string 1) = false /\
+    dirk_admits (dirk_patterns oracle_wallet1 [("wallet1/" ++ x)%string]) (acct_wallet1 ""%string 2) = true.
+Proof. exact default_after_strip_refuted. Qed.
+Print Assumptions C13_default_after_strip_refuted.
+
+(* ------------------------------------------------------------------------------------------- *)
 (* Partial failures.  The validators manager makes ONE request for all the accounts' keys.  When
    the node fails every request that names some key pk (a time-out, a rejection caused by what
    the request contains) and pk is among the keys asked for, the refresh obtains nothing and the
@@ -696,3 +768,17 @@ Example C13_example_query_during_refresh :
   /\ during_answers ex_oracle (ex_cfg Dirk) ops d false = [[(70, 1)]; [(70, 1)]]
   /\ during_answers ex_oracle (ex_cfg Dirk) ops d true = [[]].
 Proof. vm_compute. repeat split; reflexivity. Qed.
+
+(* the hypotheses of C13_anchor_only_account_part_admits_only_the_empty_name hold of the seeded
+   demonstration's specifiers and both sides are inhabited: of account1, account2, the empty name
+   and "$" only the empty name is admitted, by either manager *)
+Example C13_example_anchor_only_account_part :
+  map (fun spec => map (fun n => dirk_admits (dirk_patterns oracle_wallet1 [spec]) (acct_wallet1 n 1))
+                       ["account1"; "account2"; ""; "$"]%string)
+      ["wallet1/^$"; "wallet1/$"; "wallet1/^"; "^wallet1$/^$"]%string
+  = [[false; false; true; false]; [false; false; true; false]; [false; false; true; false]; [false; false; true; false]] /\
+  map (fun spec => map (fun n => wallet_admits (wallet_patterns oracle_wallet1 [spec]) (acct_wallet1 n 1))
+                       ["account1"; "account2"; ""; "$"]%string)
+      ["wallet1/^$"; "wallet1/$"; "wallet1/^"]%string
+  = [[false; false; true; false]; [false; false; true; false]; [false; false; true; false]].
+Proof. exact anchor_only_example. Qed.
